@@ -77,6 +77,11 @@ def c01(res, tier, rng, wd):
                     "first_steps": scs[i]["steps"][:2]} for i in (0, len(scs) // 2)]
     rejs = e1.check_scripts(res, scs, wd, "c01")
     report_e1(res, "C01", rejs)
+    # spec -> impl: the request universe of the design model, enumerated by TLC, replayed on the production session
+    uni = e1.tlc_pdu_universe(wd)
+    if not thorough:
+        uni = rng.sample(uni, 4000)
+    run_e1(res, "C01", e1.gen_universe_scenarios(rng, uni), wd, "c01universe")
     res.assumptions = ["TLC and the transcription of the Modbus rules in ModbusPdu/Mbap/Rtu/ServerRef.tla",
                        "the harness's scripted stream and recording handlers (handler semantics are defined by ServerRef.tla)",
                        "PDU space is covered class-exhaustively (boundary lattice) and by sampling, not 256^252"]
